@@ -51,6 +51,10 @@ OPS = ["enq1", "enq3", "finish", "finish_err", "cancel", "recv", "cancel_recv", 
 
 def programs(tier: str):
     yield {"L": BOUNDS[tier]["L"]}
+    # other ways of constructing the queue: explicit `loop=`, initial elements, both
+    yield {"L": BOUNDS[tier]["L"] - 1, "loop_kw": True}
+    yield {"L": BOUNDS[tier]["L"] - 2, "initial": True}
+    yield {"L": BOUNDS[tier]["L"] - 2, "initial": True, "loop_kw": True}
     # explicit-state searches run to a fixpoint: operation sequences of EVERY length in which the
     # backlog (accepted, not yet received) never exceeds B elements
     for backlog in (3, 4) if tier == "quick" else (3, 4, 6, 9):
@@ -58,6 +62,8 @@ def programs(tier: str):
             if backlog > 4 and exc_elements:
                 continue
             yield {"fix": True, "backlog": backlog, "exc_elements": exc_elements, "deadline_s": 3000, "validate": "first" if tier == "quick" else "all"}
+    yield {"fix": True, "backlog": 3, "exc_elements": False, "loop_kw": True, "deadline_s": 3000, "validate": "first" if tier == "quick" else "all"}
+    yield {"fix": True, "backlog": 4, "exc_elements": False, "initial": True, "loop_kw": True, "deadline_s": 3000, "validate": "first" if tier == "quick" else "all"}
     yield from _deep_programs(tier)
 
 
@@ -80,8 +86,9 @@ class QSys:
         self.B = program["backlog"]
         self.loop = VLoop()
         self.loop.open()
-        self.q: AsyncQueue = AsyncQueue()
-        self.pending: list = []  # accepted, not yet received (reference)
+        init_els = [100, 100] if program.get("initial") else []
+        self.q: AsyncQueue = AsyncQueue(*init_els, loop=self.loop) if program.get("loop_kw") else AsyncQueue(*init_els)
+        self.pending: list = list(init_els)  # accepted, not yet received (reference)
         self.viols: list[dict] = []
         self.nxt = 0
         self.reason: str | None = None
@@ -308,8 +315,9 @@ def execute(program, ch: Chooser) -> Result:  # noqa: C901, PLR0912, PLR0915
     loop = VLoop()
     loop.open()
     try:
-        q: AsyncQueue[int] = AsyncQueue()
-        accepted: list[int] = []
+        init_els = [100, 100] if program.get("initial") else []
+        q: AsyncQueue[int] = AsyncQueue(*init_els, loop=loop) if program.get("loop_kw") else AsyncQueue(*init_els)
+        accepted: list[int] = list(init_els)
         received: list = []  # ints, or ("end", type-name)
         hist: list[str] = []
         viols: list[dict] = []
